@@ -29,9 +29,17 @@ pub mod fs {
     use tokio_real::io::{AsyncRead, AsyncSeek, AsyncWrite, ReadBuf};
 
     async fn gated<T>(kind: GateKind, path: &Path, f: impl FnOnce() -> io::Result<T>) -> io::Result<T> {
-        Gate::new(kind, path.to_path_buf(), None).await;
+        failed(Gate::new(kind, path.to_path_buf(), None).await)?;
         sim::note_op(kind, path);
         f()
+    }
+
+    /// An injected failure: the operation is not attempted.
+    fn failed(g: Option<i32>) -> io::Result<()> {
+        match g {
+            Some(errno) => Err(io::Error::from_raw_os_error(errno)),
+            None => Ok(()),
+        }
     }
 
     pub async fn create_dir_all(path: impl AsRef<Path>) -> io::Result<()> {
@@ -61,7 +69,7 @@ pub mod fs {
     }
     pub async fn rename(from: impl AsRef<Path>, to: impl AsRef<Path>) -> io::Result<()> {
         let (a, b) = (from.as_ref(), to.as_ref());
-        Gate::new(GateKind::Rename, b.to_path_buf(), None).await;
+        failed(Gate::new(GateKind::Rename, b.to_path_buf(), None).await)?;
         sim::note_op(GateKind::Rename, b);
         sim::note_op(GateKind::Remove, a);
         std::fs::rename(a, b)
@@ -88,7 +96,7 @@ pub mod fs {
     }
     pub async fn copy(from: impl AsRef<Path>, to: impl AsRef<Path>) -> io::Result<u64> {
         let (a, b) = (from.as_ref(), to.as_ref());
-        Gate::new(GateKind::Create, b.to_path_buf(), None).await;
+        failed(Gate::new(GateKind::Create, b.to_path_buf(), None).await)?;
         sim::note_op(GateKind::Create, b);
         std::fs::copy(a, b)
     }
@@ -138,7 +146,7 @@ pub mod fs {
             let p = path.as_ref();
             let writes = self.write || self.append || self.create || self.create_new || self.truncate;
             let kind = if writes { GateKind::Create } else { GateKind::Open };
-            Gate::new(kind, p.to_path_buf(), None).await;
+            failed(Gate::new(kind, p.to_path_buf(), None).await)?;
             sim::note_op(kind, p);
             let f = std::fs::OpenOptions::new()
                 .read(self.read)
@@ -165,13 +173,13 @@ pub mod fs {
         }
         pub async fn open(path: impl AsRef<Path>) -> io::Result<File> {
             let p = path.as_ref();
-            Gate::new(GateKind::Open, p.to_path_buf(), None).await;
+            failed(Gate::new(GateKind::Open, p.to_path_buf(), None).await)?;
             sim::note_op(GateKind::Open, p);
             Ok(File::from_parts(std::fs::File::open(p)?, p.to_path_buf()))
         }
         pub async fn create(path: impl AsRef<Path>) -> io::Result<File> {
             let p = path.as_ref();
-            Gate::new(GateKind::Create, p.to_path_buf(), None).await;
+            failed(Gate::new(GateKind::Create, p.to_path_buf(), None).await)?;
             sim::note_op(GateKind::Create, p);
             Ok(File::from_parts(std::fs::File::create(p)?, p.to_path_buf()))
         }
@@ -179,15 +187,15 @@ pub mod fs {
             OpenOptions::new()
         }
         pub async fn sync_all(&self) -> io::Result<()> {
-            Gate::new(GateKind::Sync, self.path.clone(), None).await;
+            failed(Gate::new(GateKind::Sync, self.path.clone(), None).await)?;
             self.inner.sync_all()
         }
         pub async fn sync_data(&self) -> io::Result<()> {
-            Gate::new(GateKind::Sync, self.path.clone(), None).await;
+            failed(Gate::new(GateKind::Sync, self.path.clone(), None).await)?;
             self.inner.sync_data()
         }
         pub async fn set_len(&self, size: u64) -> io::Result<()> {
-            Gate::new(GateKind::Write, self.path.clone(), None).await;
+            failed(Gate::new(GateKind::Write, self.path.clone(), None).await)?;
             self.inner.set_len(size)
         }
         pub async fn metadata(&self) -> io::Result<std::fs::Metadata> {
@@ -195,15 +203,15 @@ pub mod fs {
         }
 
         /// Park on a gate of `kind`; `Ready` once the simulator has fired it.
-        fn poll_gate(&mut self, cx: &mut Context<'_>, kind: GateKind, data: Option<&[u8]>) -> Poll<()> {
+        fn poll_gate(&mut self, cx: &mut Context<'_>, kind: GateKind, data: Option<&[u8]>) -> Poll<Option<i32>> {
             if self.gate.is_none() {
                 self.gate = Some(Gate::new(kind, self.path.clone(), data.map(|d| d.to_vec())));
             }
             let g = self.gate.as_mut().unwrap();
             match Pin::new(g).poll(cx) {
-                Poll::Ready(()) => {
+                Poll::Ready(r) => {
                     self.gate = None;
-                    Poll::Ready(())
+                    Poll::Ready(r)
                 }
                 Poll::Pending => Poll::Pending,
             }
@@ -213,8 +221,10 @@ pub mod fs {
     impl AsyncRead for File {
         fn poll_read(self: Pin<&mut Self>, cx: &mut Context<'_>, buf: &mut ReadBuf<'_>) -> Poll<io::Result<()>> {
             let me = self.get_mut();
-            if me.poll_gate(cx, GateKind::Read, None).is_pending() {
-                return Poll::Pending;
+            match me.poll_gate(cx, GateKind::Read, None) {
+                Poll::Pending => return Poll::Pending,
+                Poll::Ready(Some(errno)) => return Poll::Ready(Err(io::Error::from_raw_os_error(errno))),
+                Poll::Ready(None) => {}
             }
             let want = buf.remaining();
             let take = sim::short_len(GateKind::Read, want);
@@ -236,8 +246,10 @@ pub mod fs {
     impl AsyncWrite for File {
         fn poll_write(self: Pin<&mut Self>, cx: &mut Context<'_>, buf: &[u8]) -> Poll<io::Result<usize>> {
             let me = self.get_mut();
-            if me.poll_gate(cx, GateKind::Write, Some(buf)).is_pending() {
-                return Poll::Pending;
+            match me.poll_gate(cx, GateKind::Write, Some(buf)) {
+                Poll::Pending => return Poll::Pending,
+                Poll::Ready(Some(errno)) => return Poll::Ready(Err(io::Error::from_raw_os_error(errno))),
+                Poll::Ready(None) => {}
             }
             let take = sim::short_len(GateKind::Write, buf.len());
             sim::note_op(GateKind::Write, &me.path);
@@ -250,8 +262,10 @@ pub mod fs {
         }
         fn poll_flush(self: Pin<&mut Self>, cx: &mut Context<'_>) -> Poll<io::Result<()>> {
             let me = self.get_mut();
-            if me.poll_gate(cx, GateKind::Flush, None).is_pending() {
-                return Poll::Pending;
+            match me.poll_gate(cx, GateKind::Flush, None) {
+                Poll::Pending => return Poll::Pending,
+                Poll::Ready(Some(errno)) => return Poll::Ready(Err(io::Error::from_raw_os_error(errno))),
+                Poll::Ready(None) => {}
             }
             Poll::Ready(me.inner.flush())
         }
